@@ -18,6 +18,11 @@ def run(ck):
         k = r.randint(0, len(s))
         extra.append(s[:k] + r.choice(["\n", "\r", "\r\n", "\n\n", "\r\r", "\n\r"]) + s[k:])
     inputs += extra
+    # long character runs (beyond the 16-byte SIMD stride) with line breaks in earlier blocks and a stop character later
+    for _ in range(300 if ck.quick else 8000):
+        run_ = "".join(r.choice("abcdefgh \n\n\té") for _ in range(r.randint(20, 90)))
+        k = r.randint(0, len(run_))
+        inputs.append(run_[:k] + r.choice(["<b>", "&amp;", "\r", "\0", "\r\n", "<!--x-->"]) + run_[k:] + r.choice(["", "<i>", "\n"]))
     e1, f1 = K.line_oracle(ck, bindir, model, inputs)
     ck.cov.update({
         "evaluations": n + e1, "distinct_nontrivial": len(set(s for s in inputs if T.breaks(s) > 0)),
